@@ -1,0 +1,819 @@
+//! Verification hooks (cargo feature `verif`, off by default).
+//!
+//! With the feature off this module is not compiled and the crate is
+//! byte-for-byte the shipped one.  With the feature on, the shared-memory
+//! primitives used by the price level (std atomics, `DashMap`, `SegQueue`)
+//! and the wall clock are replaced by thin wrappers that first report a
+//! *scheduling point* to a per-thread hook object and then delegate to the
+//! real primitive.  With no hook installed on the calling thread every
+//! wrapper is a plain pass-through and the clock is the system clock.
+//!
+//! The wrappers are applied at the type level (`use crate::verif::atomic::…`
+//! instead of `use std::sync::atomic::…`), so every present and future use of
+//! these primitives in the function bodies is instrumented without touching
+//! the bodies.
+
+use std::cell::{Cell, RefCell};
+use std::hash::{BuildHasher, Hash, Hasher};
+use std::marker::PhantomData;
+use std::sync::Arc;
+
+/// Kind of shared-memory operation about to be performed.
+#[derive(Debug, Clone, Copy, PartialEq, Eq, Hash, PartialOrd, Ord)]
+#[repr(u8)]
+pub enum Site {
+    /// Atomic load.
+    AtomicLoad = 0,
+    /// Atomic store.
+    AtomicStore = 1,
+    /// Atomic read-modify-write.
+    AtomicRmw = 2,
+    /// Map insert.
+    MapInsert = 3,
+    /// Map remove (by key).
+    MapRemove = 4,
+    /// Map lookup.
+    MapGet = 5,
+    /// Map iteration (whole iteration is one step).
+    MapIter = 6,
+    /// Map len / is_empty.
+    MapLen = 7,
+    /// Any other map operation.
+    MapOther = 8,
+    /// Queue push.
+    QueuePush = 9,
+    /// Queue pop.
+    QueuePop = 10,
+    /// Queue len / is_empty.
+    QueueLen = 11,
+    /// Clock read.
+    Clock = 12,
+}
+
+/// The simulator's side of the seam.  One object per simulated thread.
+pub trait SimHooks: Send + Sync {
+    /// Called *before* the operation.  `key` identifies the object: the
+    /// address of an atomic, the fingerprint of a map key, 0 otherwise.
+    /// `guard_held` is true while the calling thread holds a map guard
+    /// (a shard lock); the simulator must not deschedule the thread then.
+    fn step(&self, site: Site, key: u64, guard_held: bool);
+    /// Called *after* the operation with its outcome (1 = found / replaced /
+    /// popped something, 0 = not).  Never a scheduling point.
+    fn after(&self, _site: Site, _key: u64, _outcome: u64) {}
+    /// The simulated wall clock, in milliseconds.
+    fn now_millis(&self) -> u64;
+    /// Seed for the map hasher (decides iteration order).
+    fn hash_seed(&self) -> u64 {
+        0
+    }
+    /// Number of map shards (power of two, > 1).
+    fn shards(&self) -> usize {
+        4
+    }
+}
+
+thread_local! {
+    static HOOKS: RefCell<Option<Arc<dyn SimHooks>>> = const { RefCell::new(None) };
+    static MUTED: Cell<u32> = const { Cell::new(0) };
+    static GUARDS: Cell<u32> = const { Cell::new(0) };
+}
+
+/// Install a hook object on the calling thread; returns the previous one.
+pub fn install(h: Arc<dyn SimHooks>) -> Option<Arc<dyn SimHooks>> {
+    HOOKS.with(|c| c.borrow_mut().replace(h))
+}
+
+/// Remove the hook object of the calling thread.
+pub fn uninstall() -> Option<Arc<dyn SimHooks>> {
+    HOOKS.with(|c| c.borrow_mut().take())
+}
+
+/// Is a hook object installed on this thread?
+pub fn installed() -> bool {
+    HOOKS.with(|c| c.borrow().is_some())
+}
+
+struct MuteGuard;
+impl Drop for MuteGuard {
+    fn drop(&mut self) {
+        MUTED.with(|m| m.set(m.get() - 1));
+    }
+}
+
+/// Run `f` with scheduling points switched off on this thread (used by
+/// observers that read the level through its public API from inside a hook).
+pub fn muted<R>(f: impl FnOnce() -> R) -> R {
+    MUTED.with(|m| m.set(m.get() + 1));
+    let _g = MuteGuard;
+    f()
+}
+
+/// Number of live map guards held by this thread.
+pub fn guard_depth() -> u32 {
+    GUARDS.with(|g| g.get())
+}
+
+#[inline]
+fn hook() -> Option<Arc<dyn SimHooks>> {
+    if MUTED.with(|m| m.get()) > 0 {
+        return None;
+    }
+    HOOKS.with(|c| c.borrow().clone())
+}
+
+/// Report a scheduling point.
+#[inline]
+pub fn step(site: Site, key: u64) {
+    if let Some(h) = hook() {
+        h.step(site, key, guard_depth() > 0);
+    }
+}
+
+/// Report the outcome of the operation announced by the last `step`.
+#[inline]
+pub fn after(site: Site, key: u64, outcome: u64) {
+    if let Some(h) = hook() {
+        h.after(site, key, outcome);
+    }
+}
+
+/// The clock seam: simulated time if a hook is installed, system time otherwise.
+pub fn now_millis() -> u64 {
+    let h = HOOKS.with(|c| c.borrow().clone());
+    match h {
+        Some(h) => {
+            step(Site::Clock, 0);
+            h.now_millis()
+        }
+        None => std::time::SystemTime::now()
+            .duration_since(std::time::UNIX_EPOCH)
+            .unwrap_or_default()
+            .as_millis() as u64,
+    }
+}
+
+/// A fixed (process- and run-independent) 64-bit fingerprint of a hashable key.
+pub fn fingerprint<K: Hash + ?Sized>(k: &K) -> u64 {
+    #[allow(deprecated)]
+    let mut h = std::hash::SipHasher::new_with_keys(0x7665_7269_665f_6b31, 0x7072_6963_656c_766c);
+    k.hash(&mut h);
+    h.finish()
+}
+
+struct DepthGuard(PhantomData<*const ()>);
+impl DepthGuard {
+    fn new() -> Self {
+        GUARDS.with(|g| g.set(g.get() + 1));
+        DepthGuard(PhantomData)
+    }
+}
+impl Drop for DepthGuard {
+    fn drop(&mut self) {
+        GUARDS.with(|g| g.set(g.get() - 1));
+    }
+}
+
+/// Crate-private types that are part of the observable surface.
+pub mod exports {
+    pub use crate::execution::TransactionList;
+    pub use crate::price_level::{PriceLevelSnapshotPackage, PriceLevelStatistics};
+}
+
+/// Drop-in replacements for `std::sync::atomic::{AtomicU64, AtomicUsize}`.
+pub mod atomic {
+    use super::{Site, after, step};
+    pub use std::sync::atomic::Ordering;
+
+    macro_rules! wrap_atomic {
+        ($name:ident, $std:ty, $int:ty) => {
+            /// Instrumented drop-in for the std atomic of the same name.
+            #[derive(Default)]
+            pub struct $name($std);
+
+            impl $name {
+                /// See std.
+                pub const fn new(v: $int) -> Self {
+                    Self(<$std>::new(v))
+                }
+                #[inline]
+                fn key(&self) -> u64 {
+                    &self.0 as *const $std as usize as u64
+                }
+                /// See std.
+                pub fn load(&self, o: Ordering) -> $int {
+                    step(Site::AtomicLoad, self.key());
+                    self.0.load(o)
+                }
+                /// See std.
+                pub fn store(&self, v: $int, o: Ordering) {
+                    step(Site::AtomicStore, self.key());
+                    self.0.store(v, o)
+                }
+                /// See std.
+                pub fn swap(&self, v: $int, o: Ordering) -> $int {
+                    step(Site::AtomicRmw, self.key());
+                    self.0.swap(v, o)
+                }
+                /// See std.
+                pub fn compare_exchange(
+                    &self,
+                    current: $int,
+                    new: $int,
+                    success: Ordering,
+                    failure: Ordering,
+                ) -> Result<$int, $int> {
+                    step(Site::AtomicRmw, self.key());
+                    let r = self.0.compare_exchange(current, new, success, failure);
+                    after(Site::AtomicRmw, self.key(), r.is_ok() as u64);
+                    r
+                }
+                /// See std (never fails spuriously under the simulator's one-at-a-time schedule).
+                pub fn compare_exchange_weak(
+                    &self,
+                    current: $int,
+                    new: $int,
+                    success: Ordering,
+                    failure: Ordering,
+                ) -> Result<$int, $int> {
+                    step(Site::AtomicRmw, self.key());
+                    let r = self.0.compare_exchange(current, new, success, failure);
+                    after(Site::AtomicRmw, self.key(), r.is_ok() as u64);
+                    r
+                }
+                /// See std.
+                pub fn fetch_add(&self, v: $int, o: Ordering) -> $int {
+                    step(Site::AtomicRmw, self.key());
+                    self.0.fetch_add(v, o)
+                }
+                /// See std.
+                pub fn fetch_sub(&self, v: $int, o: Ordering) -> $int {
+                    step(Site::AtomicRmw, self.key());
+                    self.0.fetch_sub(v, o)
+                }
+                /// See std.
+                pub fn fetch_and(&self, v: $int, o: Ordering) -> $int {
+                    step(Site::AtomicRmw, self.key());
+                    self.0.fetch_and(v, o)
+                }
+                /// See std.
+                pub fn fetch_nand(&self, v: $int, o: Ordering) -> $int {
+                    step(Site::AtomicRmw, self.key());
+                    self.0.fetch_nand(v, o)
+                }
+                /// See std.
+                pub fn fetch_or(&self, v: $int, o: Ordering) -> $int {
+                    step(Site::AtomicRmw, self.key());
+                    self.0.fetch_or(v, o)
+                }
+                /// See std.
+                pub fn fetch_xor(&self, v: $int, o: Ordering) -> $int {
+                    step(Site::AtomicRmw, self.key());
+                    self.0.fetch_xor(v, o)
+                }
+                /// See std.
+                pub fn fetch_max(&self, v: $int, o: Ordering) -> $int {
+                    step(Site::AtomicRmw, self.key());
+                    self.0.fetch_max(v, o)
+                }
+                /// See std.
+                pub fn fetch_min(&self, v: $int, o: Ordering) -> $int {
+                    step(Site::AtomicRmw, self.key());
+                    self.0.fetch_min(v, o)
+                }
+                /// See std.  The whole update is one step.
+                pub fn fetch_update<F>(
+                    &self,
+                    set_order: Ordering,
+                    fetch_order: Ordering,
+                    f: F,
+                ) -> Result<$int, $int>
+                where
+                    F: FnMut($int) -> Option<$int>,
+                {
+                    step(Site::AtomicRmw, self.key());
+                    self.0.fetch_update(set_order, fetch_order, f)
+                }
+                /// See std.
+                pub fn get_mut(&mut self) -> &mut $int {
+                    self.0.get_mut()
+                }
+                /// See std.
+                pub fn into_inner(self) -> $int {
+                    self.0.into_inner()
+                }
+                /// See std.
+                pub fn as_ptr(&self) -> *mut $int {
+                    self.0.as_ptr()
+                }
+            }
+
+            impl std::fmt::Debug for $name {
+                fn fmt(&self, f: &mut std::fmt::Formatter<'_>) -> std::fmt::Result {
+                    std::fmt::Debug::fmt(&self.0, f)
+                }
+            }
+
+            impl From<$int> for $name {
+                fn from(v: $int) -> Self {
+                    Self::new(v)
+                }
+            }
+
+            impl serde::Serialize for $name {
+                fn serialize<S: serde::Serializer>(&self, s: S) -> Result<S::Ok, S::Error> {
+                    self.load(Ordering::Relaxed).serialize(s)
+                }
+            }
+
+            impl<'de> serde::Deserialize<'de> for $name {
+                fn deserialize<D: serde::Deserializer<'de>>(d: D) -> Result<Self, D::Error> {
+                    <$int as serde::Deserialize>::deserialize(d).map(Self::new)
+                }
+            }
+        };
+    }
+
+    wrap_atomic!(AtomicU64, std::sync::atomic::AtomicU64, u64);
+    wrap_atomic!(AtomicUsize, std::sync::atomic::AtomicUsize, usize);
+}
+
+/// Hasher whose only source of variation is the seed supplied by the simulator.
+#[derive(Clone, Debug, Default)]
+pub struct SeededState(pub u64);
+
+impl BuildHasher for SeededState {
+    type Hasher = std::collections::hash_map::DefaultHasher;
+    fn build_hasher(&self) -> Self::Hasher {
+        let mut h = std::collections::hash_map::DefaultHasher::new();
+        h.write_u64(self.0);
+        h
+    }
+}
+
+/// Drop-in replacement for `dashmap::DashMap` (default hasher parameter).
+pub mod map {
+    use super::{DepthGuard, SeededState, Site, after, fingerprint, step};
+    use std::borrow::Borrow;
+    use std::hash::Hash;
+    use std::ops::{Deref, DerefMut};
+
+    type Inner<K, V> = dashmap::DashMap<K, V, SeededState>;
+
+    /// Instrumented map: every call is one scheduling point, then the real `dashmap` call.
+    pub struct DashMap<K, V> {
+        inner: Inner<K, V>,
+    }
+
+    /// Shared guard; while alive the owning thread is never descheduled.
+    pub struct Ref<'a, K, V> {
+        inner: dashmap::mapref::one::Ref<'a, K, V>,
+        _g: DepthGuard,
+    }
+    impl<'a, K: Eq + Hash, V> Ref<'a, K, V> {
+        /// See dashmap.
+        pub fn key(&self) -> &K {
+            self.inner.key()
+        }
+        /// See dashmap.
+        pub fn value(&self) -> &V {
+            self.inner.value()
+        }
+        /// See dashmap.
+        pub fn pair(&self) -> (&K, &V) {
+            self.inner.pair()
+        }
+    }
+    impl<'a, K: Eq + Hash, V> Deref for Ref<'a, K, V> {
+        type Target = V;
+        fn deref(&self) -> &V {
+            self.inner.value()
+        }
+    }
+
+    /// Exclusive guard; while alive the owning thread is never descheduled.
+    pub struct RefMut<'a, K, V> {
+        inner: dashmap::mapref::one::RefMut<'a, K, V>,
+        _g: DepthGuard,
+    }
+    impl<'a, K: Eq + Hash, V> RefMut<'a, K, V> {
+        /// See dashmap.
+        pub fn key(&self) -> &K {
+            self.inner.key()
+        }
+        /// See dashmap.
+        pub fn value(&self) -> &V {
+            self.inner.value()
+        }
+        /// See dashmap.
+        pub fn value_mut(&mut self) -> &mut V {
+            self.inner.value_mut()
+        }
+        /// See dashmap.
+        pub fn pair(&self) -> (&K, &V) {
+            self.inner.pair()
+        }
+    }
+    impl<'a, K: Eq + Hash, V> Deref for RefMut<'a, K, V> {
+        type Target = V;
+        fn deref(&self) -> &V {
+            self.inner.value()
+        }
+    }
+    impl<'a, K: Eq + Hash, V> DerefMut for RefMut<'a, K, V> {
+        fn deref_mut(&mut self) -> &mut V {
+            self.inner.value_mut()
+        }
+    }
+
+    /// Item of an iteration.
+    pub struct RefMulti<'a, K, V> {
+        inner: dashmap::mapref::multiple::RefMulti<'a, K, V>,
+        _g: DepthGuard,
+    }
+    impl<'a, K: Eq + Hash, V> RefMulti<'a, K, V> {
+        /// See dashmap.
+        pub fn key(&self) -> &K {
+            self.inner.key()
+        }
+        /// See dashmap.
+        pub fn value(&self) -> &V {
+            self.inner.value()
+        }
+        /// See dashmap.
+        pub fn pair(&self) -> (&K, &V) {
+            self.inner.pair()
+        }
+    }
+    impl<'a, K: Eq + Hash, V> Deref for RefMulti<'a, K, V> {
+        type Target = V;
+        fn deref(&self) -> &V {
+            self.inner.value()
+        }
+    }
+
+    /// Item of a mutable iteration.
+    pub struct RefMutMulti<'a, K, V> {
+        inner: dashmap::mapref::multiple::RefMutMulti<'a, K, V>,
+        _g: DepthGuard,
+    }
+    impl<'a, K: Eq + Hash, V> RefMutMulti<'a, K, V> {
+        /// See dashmap.
+        pub fn key(&self) -> &K {
+            self.inner.key()
+        }
+        /// See dashmap.
+        pub fn value(&self) -> &V {
+            self.inner.value()
+        }
+        /// See dashmap.
+        pub fn value_mut(&mut self) -> &mut V {
+            self.inner.value_mut()
+        }
+    }
+    impl<'a, K: Eq + Hash, V> Deref for RefMutMulti<'a, K, V> {
+        type Target = V;
+        fn deref(&self) -> &V {
+            self.inner.value()
+        }
+    }
+    impl<'a, K: Eq + Hash, V> DerefMut for RefMutMulti<'a, K, V> {
+        fn deref_mut(&mut self) -> &mut V {
+            self.inner.value_mut()
+        }
+    }
+
+    /// Iterator; the whole iteration is one step and the thread is not descheduled while it lives.
+    pub struct Iter<'a, K, V> {
+        inner: dashmap::iter::Iter<'a, K, V, SeededState, Inner<K, V>>,
+        _g: DepthGuard,
+    }
+    impl<'a, K: Eq + Hash + 'a, V: 'a> Iterator for Iter<'a, K, V> {
+        type Item = RefMulti<'a, K, V>;
+        fn next(&mut self) -> Option<Self::Item> {
+            self.inner.next().map(|inner| RefMulti {
+                inner,
+                _g: DepthGuard::new(),
+            })
+        }
+    }
+
+    /// Mutable iterator.
+    pub struct IterMut<'a, K, V> {
+        inner: dashmap::iter::IterMut<'a, K, V, SeededState, Inner<K, V>>,
+        _g: DepthGuard,
+    }
+    impl<'a, K: Eq + Hash + 'a, V: 'a> Iterator for IterMut<'a, K, V> {
+        type Item = RefMutMulti<'a, K, V>;
+        fn next(&mut self) -> Option<Self::Item> {
+            self.inner.next().map(|inner| RefMutMulti {
+                inner,
+                _g: DepthGuard::new(),
+            })
+        }
+    }
+
+    /// Entry guard (holds a shard write lock).
+    pub struct Entry<'a, K, V> {
+        inner: dashmap::mapref::entry::Entry<'a, K, V>,
+        g: DepthGuard,
+    }
+    impl<'a, K: Eq + Hash, V> Entry<'a, K, V> {
+        /// See dashmap.
+        pub fn key(&self) -> &K {
+            self.inner.key()
+        }
+        /// See dashmap.
+        pub fn and_modify(self, f: impl FnOnce(&mut V)) -> Self {
+            Entry {
+                inner: self.inner.and_modify(f),
+                g: self.g,
+            }
+        }
+        /// See dashmap.
+        pub fn or_insert(self, value: V) -> RefMut<'a, K, V> {
+            RefMut {
+                inner: self.inner.or_insert(value),
+                _g: self.g,
+            }
+        }
+        /// See dashmap.
+        pub fn or_insert_with(self, f: impl FnOnce() -> V) -> RefMut<'a, K, V> {
+            RefMut {
+                inner: self.inner.or_insert_with(f),
+                _g: self.g,
+            }
+        }
+        /// See dashmap.
+        pub fn or_default(self) -> RefMut<'a, K, V>
+        where
+            V: Default,
+        {
+            RefMut {
+                inner: self.inner.or_default(),
+                _g: self.g,
+            }
+        }
+        /// See dashmap.
+        pub fn insert(self, value: V) -> RefMut<'a, K, V> {
+            RefMut {
+                inner: self.inner.insert(value),
+                _g: self.g,
+            }
+        }
+        /// Is the entry occupied?
+        pub fn is_occupied(&self) -> bool {
+            matches!(self.inner, dashmap::mapref::entry::Entry::Occupied(_))
+        }
+    }
+
+    impl<K: Eq + Hash, V> DashMap<K, V> {
+        /// See dashmap.  Hasher seed and shard count come from the simulator.
+        pub fn new() -> Self {
+            let (seed, shards) = match super::HOOKS.with(|c| c.borrow().clone()) {
+                Some(h) => (h.hash_seed(), h.shards()),
+                None => (0, 4),
+            };
+            Self {
+                inner: Inner::with_hasher_and_shard_amount(SeededState(seed), shards),
+            }
+        }
+        /// See dashmap.
+        pub fn with_capacity(capacity: usize) -> Self {
+            let _ = capacity;
+            Self::new()
+        }
+        /// See dashmap.
+        pub fn insert(&self, key: K, value: V) -> Option<V> {
+            let fp = fingerprint(&key);
+            step(Site::MapInsert, fp);
+            let r = self.inner.insert(key, value);
+            after(Site::MapInsert, fp, r.is_some() as u64);
+            r
+        }
+        /// See dashmap.
+        pub fn remove<Q>(&self, key: &Q) -> Option<(K, V)>
+        where
+            K: Borrow<Q>,
+            Q: Hash + Eq + ?Sized,
+        {
+            let fp = fingerprint(key);
+            step(Site::MapRemove, fp);
+            let r = self.inner.remove(key);
+            after(Site::MapRemove, fp, r.is_some() as u64);
+            r
+        }
+        /// See dashmap.
+        pub fn remove_if<Q>(&self, key: &Q, f: impl FnOnce(&K, &V) -> bool) -> Option<(K, V)>
+        where
+            K: Borrow<Q>,
+            Q: Hash + Eq + ?Sized,
+        {
+            let fp = fingerprint(key);
+            step(Site::MapRemove, fp);
+            let _g = DepthGuard::new();
+            let r = self.inner.remove_if(key, f);
+            after(Site::MapRemove, fp, r.is_some() as u64);
+            r
+        }
+        /// See dashmap.
+        pub fn remove_if_mut<Q>(
+            &self,
+            key: &Q,
+            f: impl FnOnce(&K, &mut V) -> bool,
+        ) -> Option<(K, V)>
+        where
+            K: Borrow<Q>,
+            Q: Hash + Eq + ?Sized,
+        {
+            let fp = fingerprint(key);
+            step(Site::MapRemove, fp);
+            let _g = DepthGuard::new();
+            let r = self.inner.remove_if_mut(key, f);
+            after(Site::MapRemove, fp, r.is_some() as u64);
+            r
+        }
+        /// See dashmap.
+        pub fn get<Q>(&self, key: &Q) -> Option<Ref<'_, K, V>>
+        where
+            K: Borrow<Q>,
+            Q: Hash + Eq + ?Sized,
+        {
+            let fp = fingerprint(key);
+            step(Site::MapGet, fp);
+            let r = self.inner.get(key).map(|inner| Ref {
+                inner,
+                _g: DepthGuard::new(),
+            });
+            after(Site::MapGet, fp, r.is_some() as u64);
+            r
+        }
+        /// See dashmap.
+        pub fn get_mut<Q>(&self, key: &Q) -> Option<RefMut<'_, K, V>>
+        where
+            K: Borrow<Q>,
+            Q: Hash + Eq + ?Sized,
+        {
+            let fp = fingerprint(key);
+            step(Site::MapGet, fp);
+            let r = self.inner.get_mut(key).map(|inner| RefMut {
+                inner,
+                _g: DepthGuard::new(),
+            });
+            after(Site::MapGet, fp, r.is_some() as u64);
+            r
+        }
+        /// See dashmap.
+        pub fn contains_key<Q>(&self, key: &Q) -> bool
+        where
+            K: Borrow<Q>,
+            Q: Hash + Eq + ?Sized,
+        {
+            let fp = fingerprint(key);
+            step(Site::MapGet, fp);
+            let r = self.inner.contains_key(key);
+            after(Site::MapGet, fp, r as u64);
+            r
+        }
+        /// See dashmap.
+        pub fn view<Q, R>(&self, key: &Q, f: impl FnOnce(&K, &V) -> R) -> Option<R>
+        where
+            K: Borrow<Q>,
+            Q: Hash + Eq + ?Sized,
+        {
+            let fp = fingerprint(key);
+            step(Site::MapGet, fp);
+            let _g = DepthGuard::new();
+            let r = self.inner.view(key, f);
+            after(Site::MapGet, fp, r.is_some() as u64);
+            r
+        }
+        /// See dashmap.
+        pub fn alter<Q>(&self, key: &Q, f: impl FnOnce(&K, V) -> V)
+        where
+            K: Borrow<Q>,
+            Q: Hash + Eq + ?Sized,
+        {
+            let fp = fingerprint(key);
+            step(Site::MapOther, fp);
+            let _g = DepthGuard::new();
+            self.inner.alter(key, f)
+        }
+        /// See dashmap.
+        pub fn retain(&self, f: impl FnMut(&K, &mut V) -> bool) {
+            step(Site::MapOther, 0);
+            let _g = DepthGuard::new();
+            self.inner.retain(f)
+        }
+        /// See dashmap.
+        pub fn clear(&self) {
+            step(Site::MapOther, 0);
+            self.inner.clear()
+        }
+        /// See dashmap.
+        pub fn len(&self) -> usize {
+            step(Site::MapLen, 0);
+            self.inner.len()
+        }
+        /// See dashmap.
+        pub fn is_empty(&self) -> bool {
+            step(Site::MapLen, 0);
+            self.inner.is_empty()
+        }
+        /// See dashmap.
+        pub fn iter(&self) -> Iter<'_, K, V> {
+            step(Site::MapIter, 0);
+            Iter {
+                _g: DepthGuard::new(),
+                inner: self.inner.iter(),
+            }
+        }
+        /// See dashmap.
+        pub fn iter_mut(&self) -> IterMut<'_, K, V> {
+            step(Site::MapIter, 0);
+            IterMut {
+                _g: DepthGuard::new(),
+                inner: self.inner.iter_mut(),
+            }
+        }
+        /// See dashmap.
+        pub fn entry(&self, key: K) -> Entry<'_, K, V> {
+            let fp = fingerprint(&key);
+            step(Site::MapOther, fp);
+            Entry {
+                g: DepthGuard::new(),
+                inner: self.inner.entry(key),
+            }
+        }
+    }
+
+    impl<K: Eq + Hash, V> Default for DashMap<K, V> {
+        fn default() -> Self {
+            Self::new()
+        }
+    }
+
+    impl<K: Eq + Hash + std::fmt::Debug, V: std::fmt::Debug> std::fmt::Debug for DashMap<K, V> {
+        fn fmt(&self, f: &mut std::fmt::Formatter<'_>) -> std::fmt::Result {
+            let _g = DepthGuard::new();
+            std::fmt::Debug::fmt(&self.inner, f)
+        }
+    }
+
+    impl<'a, K: Eq + Hash, V> IntoIterator for &'a DashMap<K, V> {
+        type Item = RefMulti<'a, K, V>;
+        type IntoIter = Iter<'a, K, V>;
+        fn into_iter(self) -> Self::IntoIter {
+            self.iter()
+        }
+    }
+
+    /// Fallback for anything not wrapped above: un-instrumented access to the real map.
+    impl<K, V> Deref for DashMap<K, V> {
+        type Target = Inner<K, V>;
+        fn deref(&self) -> &Self::Target {
+            &self.inner
+        }
+    }
+}
+
+/// Drop-in replacement for `crossbeam::queue::SegQueue`.
+pub mod queue {
+    use super::{Site, after, step};
+
+    /// Instrumented queue: every call is one scheduling point, then the real call.
+    #[derive(Debug, Default)]
+    pub struct SegQueue<T> {
+        inner: crossbeam::queue::SegQueue<T>,
+    }
+
+    impl<T> SegQueue<T> {
+        /// See crossbeam.
+        pub const fn new() -> Self {
+            Self {
+                inner: crossbeam::queue::SegQueue::new(),
+            }
+        }
+        /// See crossbeam.
+        pub fn push(&self, value: T) {
+            step(Site::QueuePush, 0);
+            self.inner.push(value)
+        }
+        /// See crossbeam.
+        pub fn pop(&self) -> Option<T> {
+            step(Site::QueuePop, 0);
+            let r = self.inner.pop();
+            after(Site::QueuePop, 0, r.is_some() as u64);
+            r
+        }
+        /// See crossbeam.
+        pub fn len(&self) -> usize {
+            step(Site::QueueLen, 0);
+            self.inner.len()
+        }
+        /// See crossbeam.
+        pub fn is_empty(&self) -> bool {
+            step(Site::QueueLen, 0);
+            self.inner.is_empty()
+        }
+    }
+}
